@@ -45,6 +45,7 @@ REQUIRE = {
     "text_only_change_cases": 150,
     "rows_before_render_checks": 2500,
     "random_cases": 200,
+    "fixed_finding_directed_cases": 2000,
     "pack_fixed_checks": 500,
     "pack_fixed_multi_line": 200,
     "pack_fixed_widest_line_is_not_longest": 30,
@@ -81,7 +82,11 @@ RULE = (
     "exh_phase_complete:<phase> = number of shards that finished it). Rest of the budget: random texts to length 60 over "
     "ASCII/Latin-1/CJK/combining/ZWJ/VS16/emoji/line-drawing, widths to 40, encodings utf-8, euc-jp, gbk, big5, iso8859-1, "
     "ascii, koi8-r, plus same-config-other-width and text-only-change follow-ups (translation cache), pack(())/render(()) "
-    "and shift_line/trim_line window views. Long lines: texts of 150..1500 characters (all double-width, double-width after 1/2/3 "
+    "and shift_line/trim_line window views. Ellipsis/clip directed set under every encoding name of urwid's wide class that Python "
+    "has a codec for (euc-jp, euc-kr, euc-cn, gb2312, gbk, big5, uhc, eucjp, euckr, euccn), the multi-byte codecs urwid classes "
+    "as narrow (shift_jis, cp932, cp949, johab, big5hkscs, gb18030, euc_jis_2004, shift_jisx0213, hz, iso2022_jp) and the 8-bit / "
+    "utf-8 families: 7 texts x widths 1..8 x 3 aligns x str/bytes. Every case named by the fixed C03 findings (4 fixes) with all "
+    "alignments, neighbouring widths and window shifts, on every shard. Long lines: texts of 150..1500 characters (all double-width, double-width after 1/2/3 "
     "ASCII bytes, wide words, mixed, combining runs, ASCII words, unbroken ASCII, several long lines) x widths "
     "{255,256,257,300,511,512,513,1000} x 4 wraps, rotating alignment, as str and bytes under utf-8, euc-jp, gbk, big5, "
     "iso8859-1, cp1252. ASCII control characters (TAB, NUL, DEL, other C0 except newline and SO/SI; zero "
@@ -144,9 +149,17 @@ CONTROLS = frozenset(chr(c) for c in [*range(0x00, 0x0A), *range(0x0B, 0x0E), *r
 CONTROL_POOL = ["\t", "\t", "\x00", "\x01", "\x07", "\x08", "\x0b", "\x0c", "\r", "\x1b", "\x1f", "\x7f"]
 
 
+# every name urwid.util.set_encoding puts into the "wide" class for which Python has a codec ...
+WIDE_NAMES = ["euc-jp", "euc-kr", "euc-cn", "gb2312", "gbk", "big5", "uhc", "eucjp", "euckr", "euccn"]
+# ... and multi-byte codecs that urwid classes as "narrow" (one column per byte): the encoded ellipsis is 2+ bytes there
+NARROW_MULTIBYTE = ["shift_jis", "cp932", "cp949", "johab", "big5hkscs", "gb18030", "euc_jis_2004", "shift_jisx0213", "hz", "iso2022_jp"]
+ELLIPSIS_ENCODINGS = WIDE_NAMES + NARROW_MULTIBYTE + ["utf-8", "ascii", "iso8859-1", "koi8-r", "cp1252", "cp1251", "cp1250", "mac_roman"]
 ASCII_CONTROL_POOL = list("abcxyz01.,") + [" "] * 5 + ["\n"] + CONTROL_POOL
 RANDOM_POOL = RANDOM_POOL + ["\t", "\x00", "\x7f", "\r"]
 _MODES = dict(EXH_ENCODINGS + RND_ENCODINGS)
+_MODES.update({e: "wide" for e in WIDE_NAMES})
+_MODES.update({e: "narrow" for e in NARROW_MULTIBYTE})
+REQUIRE.update({f"ellipsis_trimmed_directed:{e}": 30 for e in ELLIPSIS_ENCODINGS})
 
 
 def mode_of(enc):
@@ -845,6 +858,76 @@ def _run(ctx):
                     continue
                 order = ENC_CYCLE if k % 2 else ENC_CYCLE[::-1]
                 interleave(ctx, st, s0, w, wrap, ALIGNS[k % 3], order, as_bytes=bool(k // 2 % 2))
+
+    # ---- directed: the ellipsis clauses under EVERY encoding name of urwid's wide class and the multi-byte codecs it
+    # classes as narrow (the mark must be measured in the target encoding), plus the 8-bit and utf-8 families
+    k = 0
+    for enc in ELLIPSIS_ENCODINGS:
+        for s0 in ("abcdef", "abcdef ghij\nkl", "漢字漢字漢", "中文中文中", "한국어한국", "ab漢cd中e한f", "ｱｲｳｴｵｶ"):
+            for as_bytes in (False, True):
+                t = fit_text(s0, enc, as_bytes)
+                if len(t) < 3:
+                    continue
+                text = to_bytes(t, enc, mode_of(enc)) if as_bytes else t
+                lw = max(M.Dec(text, mode_of(enc)).cwidth(a, b) for a, b in M.Dec(text, mode_of(enc)).paragraphs())
+                for w in range(1, 9):
+                    k += 1
+                    if not ctx.mine(k):
+                        continue
+                    for al in ALIGNS:
+                        run_one(ctx, st, {"enc": enc, "text": text, "width": w, "wrap": "ellipsis", "align": al}, light=al != "left")
+                        if lw > w >= 2:
+                            ctx.count(f"ellipsis_trimmed_directed:{enc}")
+                    run_one(ctx, st, {"enc": enc, "text": text, "width": w, "wrap": "clip", "align": ALIGNS[k % 3]}, light=True)
+
+    # ---- directed: every case named by the fixed C03 findings (KNOWN_FINDINGS.txt fixed: lines / their commit messages),
+    # with all alignments and the neighbouring widths.  Run by every shard (small).
+    named = [
+        # ba58766 subseg empty segment
+        ("utf-8", "漢", (1,), ("clip", "ellipsis")),
+        ("utf-8", "a漢", (1, 2), ("clip", "ellipsis")),
+        ("utf-8", "漢a", (1, 2), ("clip", "ellipsis")),
+        ("utf-8", "漢漢", (1, 2, 3), ("clip", "ellipsis")),
+        ("euc-jp", "漢", (1,), ("clip", "ellipsis")),
+        # e0fc36b zero-column text segments
+        ("utf-8", "́ a", (1, 2), WRAPS),
+        ("utf-8", "́", (1, 5), WRAPS),
+        ("utf-8", "a\ń\nb", (1, 5), WRAPS),
+        ("utf-8", "中 ️ a1", (1, 2, 3), WRAPS),
+        ("utf-8", "aa ️ aa", (1, 2), WRAPS),
+        ("utf-8", "̈字", (1, 2), WRAPS),
+        ("utf-8", "́漢", (2,), ("ellipsis", "clip")),
+        # f61c50e ellipsis mark width
+        ("ascii", "abcdef", (2, 3, 4, 5, 6), ("ellipsis",)),
+        ("iso8859-1", "abcdef", (2, 3, 4, 5, 6), ("ellipsis",)),
+        ("ascii", "abcdefgh", (3, 4, 5), ("ellipsis",)),
+        ("euc-jp", "abcdef", (2, 3, 4, 5), ("ellipsis",)),
+        ("gbk", "abcdef", (2, 3, 4, 5), ("ellipsis",)),
+        ("big5", "abcdef", (2, 3, 4, 5), ("ellipsis",)),
+        ("uhc", "abcdef", (2, 3, 4, 5), ("ellipsis",)),
+        ("euc-jp", "漢漢", (2, 3), ("ellipsis",)),
+        ("euc-jp", "a漢cdef", (2, 3, 4, 5), ("ellipsis",)),
+        ("utf-8", "a漢cdef", (2, 3, 4, 5), ("ellipsis",)),
+        ("utf-8", "ab漢def", (2, 3, 4, 5), ("ellipsis",)),
+        # 0a93769 charset runs behind a padding segment
+        ("euc-jp", "a漢─", (1, 2, 3), ("clip", "ellipsis", "any")),
+        ("euc-jp", "a漢b─c│d", (4, 5, 6), ("clip",)),
+        ("gbk", "a漢─", (2,), ("clip",)),
+    ]
+    for enc, t, ws, wraps in named:
+        for as_bytes in (False, True):
+            tt = fit_text(t, enc, as_bytes)
+            text = to_bytes(tt, enc, mode_of(enc)) if as_bytes else tt
+            for w in ws:
+                for wrap in wraps:
+                    for al in ALIGNS:
+                        run_one(ctx, st, {"enc": enc, "text": text, "width": w, "wrap": wrap, "align": al})
+                        ctx.count("fixed_finding_directed_cases")
+                lw = sum(M.Dec(text, mode_of(enc)).widths)
+                if "\n" not in tt:
+                    for sh in range(0, max(0, lw - w) + 1):
+                        run_one(ctx, st, {"kind": "window", "enc": enc, "text": text, "width": w, "shift": sh})
+                        ctx.count("fixed_finding_directed_cases")
 
     # ---- directed: unlimited-width view of multi-line texts whose widest line is not the one with most characters
     k = 0
